@@ -22,6 +22,12 @@
    multiplexing sessions in globals.sessionStore, ClusterNode.msess, and the
    topics of globals.hub (existence, isChan, supd != nil, isProxy).
 
+   Not modelled: the sess.terminating test of routeToTopicMaster and the "load exceeded"
+   answer of proxyToMasterAsync (p2mSender full) - both only stop a request from being made;
+   gcProxySessionsForNode; the asynchrony of the proxy event pool (the write loop that a stop
+   message schedules is taken to run at once); Hub.rehash.  A topic is stored in the hub under
+   its own name (Topic.name = key), as hub.go does.
+
    Strings are byte lists (Ring.str).  The ring is abstracted by two Section
    variables: [sigf ns] = Ring.Signature() and [getf ns key] = Ring.Get(key) of
    the ring Cluster.rehash builds from the node list [ns]; Props/PropC17.v
